@@ -2,6 +2,7 @@ package php
 
 import (
 	"fmt"
+	"reflect"
 	"regexp"
 	"strings"
 
@@ -180,7 +181,9 @@ func defaultValueForType(config Config, schemas ast.Schemas, typeDef ast.Type, d
 		if found && referredObj.Type.IsEnum() {
 			enumName := formatObjectName(referredObj.Type.AsEnum().Values[0].Name)
 			for _, enumValue := range referredObj.Type.AsEnum().Values {
-				if enumValue.Value == typeDef.Default {
+				// values come from the input documents: they can be lists
+				// or maps, which `==` can not compare
+				if reflect.DeepEqual(enumValue.Value, typeDef.Default) {
 					enumName = formatEnumMemberName(enumValue.Name)
 					break
 				}
